@@ -8,8 +8,9 @@ A spec is a JSON list of items
 
   {"name": "newman_step",                      Lean name of the definition
    "file": "src/pyunicorn/core/network.py",
-   "func": "Network.newman_betweenness",       Class.method or function
-   "target": "step",                           assigned name | "return" | "subscript:<arr>"
+   "func": "Network.newman_betweenness",       Class.method or function (`name#k`: k-th def of that name)
+   "target": "step",                           assigned name | "return" | "subscript:<arr>" |
+                                               "index:<arr>" (load) | "store_index:<arr>" | "call:<f>#i"
    "occurrence": 0,                            which matching statement (default 0)
    "params": [["N","Int"],["max_parts","Int"]],  free names of the expression, with Lean types
    "ret": "Int",                               Lean type of the result
@@ -57,8 +58,14 @@ def find_func(tree, qual):
     node = None
     for p in parts:
         node = None
+        # `name#k` selects the k-th definition of that name (property getter / setter pairs)
+        p, _, skip = p.partition("#")
+        skip = int(skip or 0)
         for n in body:
             if isinstance(n, (ast.FunctionDef, ast.ClassDef, ast.AsyncFunctionDef)) and n.name == p:
+                if skip:
+                    skip -= 1
+                    continue
                 node = n
                 break
         if node is None:
@@ -99,6 +106,10 @@ def find_stmt(func, target, occurrence):
         elif target.startswith("index:") and isinstance(n, ast.Subscript) \
                 and dotted(n.value) == target[len("index:"):] \
                 and isinstance(n.ctx, ast.Load):
+            hits.append((n.lineno, n.slice))
+        elif target.startswith("store_index:") and isinstance(n, ast.Subscript) \
+                and dotted(n.value) == target[len("store_index:"):] \
+                and isinstance(n.ctx, ast.Store):
             hits.append((n.lineno, n.slice))
         elif target.startswith("call:") and isinstance(n, ast.Call) \
                 and dotted(n.func) == target[len("call:"):].split("#")[0]:
